@@ -9,6 +9,12 @@ TB = "CPython 3.12, crosshair-tool 0.0.110, z3 5.1; the import shim of lib/repo_
 
 # id -> (category, technique, text, note, design_ref, engine)
 CHECKS = {
+    "C09": ("model_checking",
+            "CrossHair/z3 symbolic execution of the worklist loop body sliced from the real analysis.py from an arbitrary state (inductive step, any popped block), plus whole-graph runs under solver-chosen schedules",
+            "One iteration of ForwardAnalysis.run/BackwardAnalysis.run (sliced from the current source, queue.pop() made a parameter) runs symbolically from an arbitrary lattice state around the popped block "
+            "(0-2 quick / 0-3 thorough ordinary neighbours, self-loop, dummy edge, include_unreachable both ways): the block becomes stable and every dependant is queued if it changed, so an empty queue is a solution whatever the order; "
+            "initialisation and lattice laws (join/apply_bb distributive, eq) make it the least/greatest one. On 6 real CFGs the first K worklist picks are chosen by the solver and CFG.analyze is compared with an independent path search.",
+            TB + "; textbook MOP=MFP for distributive frameworks; induction over worklist steps", "DESIGN.md §5 C09", "E1"),
     "C30": ("model_checking",
             "symbolic execution of the real span.py with CrossHair/z3 over unbounded integer coordinates",
             "Every sentence of the property is a CrossHair condition over the real Loc/Span code with all line/column numbers symbolic "
